@@ -100,17 +100,10 @@ def run(chk, ctx):
                                'expected_channel': T.show(ch_t)[:80]},
                        site=site)
                 last = T.sub(r.n, 1)
-                e_ok = kn.decide(T.compare('eq', T.index(data, last),
-                                           fe)) is True
-                if not e_ok:
-                    # same test spelled on a one-byte slice
-                    e_ok = kn.decide(T.compare(
-                        'eq', T.slice_(data, last, r.n),
-                        bytes([fe]) if isinstance(fe, int) else fe)) is True
-                if not e_ok and isinstance(r.n, Sym):
-                    alt = T.add(size_t, hf.size)
-                    e_ok = kn.decide(T.compare('eq', T.index(data, alt),
-                                               fe)) is True
+                fec = st_it.global_value(cmod, 'FRAME_END_CHAR')
+                e_ok = F.end_octet_guarded(kn, data, last, fe, fec) or \
+                    F.end_octet_guarded(kn, data, T.add(size_t, hf.size),
+                                        fe, fec)
                 chk.ob('C06.E', cons, e_ok,
                        'path facts %s data[consumed-1] == %r' %
                        ('include' if e_ok else 'do NOT include', fe),
